@@ -51,6 +51,14 @@ def run(tier: str, seed: int) -> int:
     t0 = traces[0]
     run_.sample({"tid": t0["tid"], "pack": t0["pack"], "rule_events": [e for e in t0["events"] if e["op"] == "rule"][:3]})
     judge(run_, traces, "search")
+    # the whole expand / check loop against Search.tla (model of the searcher composed of ClassDB, ClassQueue, RuleDB)
+    from .. import searchmodel
+
+    jobs, rejected, nmc = searchmodel.campaign(run_, tier, seed, want_mc=True)
+    for job, r in rejected:
+        run_.violation(r["clause"], "search-loop/" + job["sig"], {"reject": r, "trace": {"tid": job["tid"], "events": job["events"]}, "universe": job["universe"]})
+    run_.extra["search_loops_validated_against_Search_tla"] = len(jobs)
+    run_.extra["universes_model_checked_for_all_slicings"] = nmc
     run_.rule = ("one trace per search of the campaign (start classes x packs x rule-db flavours x time-slicings, seeded subset in "
                  "the quick tier); every rule insertion and class-db call is an event; non-trivial = a search in which an empty "
                  "child was omitted from a stored key or a rule with a foreign parent was recorded")
@@ -80,8 +88,21 @@ def selftest(seed: int) -> int:
     rejected = {r["tid"]: r["clause"] for r in v.rejects}
     tlc.clean_workdir(run_.wd)
     ok = set(rejected) == {"corrupt", "dropped"}
-    print("selftest C04: rejected=%s -> %s" % (rejected, "OK" if ok else "FAILED"))
-    return 0 if ok else 2
+    # binding of Search.tla: the recorded loop is accepted; a corrupted rule count and a dropped step are rejected
+    from .. import searchmodel
+
+    run2 = Run("C04", "quick", seed)
+    job = searchmodel.run_model_session(("", ("aba", "bb"), "ab", "s0", "plain", "default", "mixed", True))
+    j1 = json.loads(json.dumps(job)); j1["tid"] = "loop-corrupt"
+    next(e for e in j1["events"] if e["op"] == "packet" and e["nrules"] > 2)["nrules"] += 1
+    j2 = json.loads(json.dumps(job)); j2["tid"] = "loop-dropped"
+    del j2["events"][3]
+    res = [searchmodel.validate_loop(run2, j, str(i)) for i, j in enumerate((job, j1, j2))]
+    tlc.clean_workdir(run2.wd)
+    ok2 = [v.accepted for v in res] == [1, 0, 0]
+    print("selftest C04: rejected=%s -> %s; Search.tla loop binding accepted/corrupt/dropped = %s -> %s" % (
+        rejected, "OK" if ok else "FAILED", [v.accepted for v in res], "OK" if ok2 else "FAILED"))
+    return 0 if ok and ok2 else 2
 
 
 def replay(path: str, seed: int) -> int:
